@@ -164,7 +164,8 @@ class ContractFailure(Exception):
 
 
 def base_env(module):
-    env = dict(vars(module))
+    env = {k: v for k, v in vars(load_module('emmet.scanner_utils')).items() if callable(v)}
+    env.update(vars(module))
     env.update(HELPERS)
     env['max'] = max
     env['min'] = min
